@@ -47,3 +47,11 @@ verif_harness! { c08_r3_header_roundtrip, 40, {
     assert!(EntryHeader::serialized_len() == 36);
     kani::cover!(true, "end reached");
 } }
+
+// native replay of counterexamples: bin/check writes the unit test Kani generated (`--concrete-playback=print`) into the
+// included file and runs `cargo kani playback`; the file is empty otherwise.
+#[allow(unused_imports, dead_code)]
+mod playback {
+    use super::*;
+    include!("/verif/harness/playback/foyer-storage/engine__block__serde__verif_kani.rs");
+}
